@@ -407,10 +407,38 @@ func (c *c09Gen) txLine(ri int, ra c09Ra, cs *coreSnap, ls *c09Snap, mine []int)
 		up := c.updateLine(ri, ra, ls, g.Chance(20), ra.awaiting)
 		subs, name = []string{c.headerLine(ci, cs, ls), up, c.headerLine(ci, cs, ls)}, "header-update-header"
 	}
+	if g.Chance(22) {
+		// designation first, then a message whose ante check has just treated the client as NOT canonical
+		if _, isCanon := ls.C2R[ci]; !isCanon || g.Chance(10) {
+			if g.Bool() {
+				// a header for a posted height, signed by the trusted key (power 10) and naming a key no sequencer registered as proposer
+				cl := ls.Clients[ci]
+				if len(cl.Cons) > 0 && ra.latest >= cl.Cons[0].H+2 {
+					tr := cl.Cons[0]
+					signer := nvOwner(tr.Nv)
+					ht := tr.H + 2 + uint64(g.Intn(int(ra.latest-tr.H-1)))
+					root := honestRoot(ht)
+					if g.Chance(70) {
+						root += 100
+					}
+					if signer >= 0 && cl.Cons[len(cl.Cons)-1].H < ht {
+						hd := fmt.Sprintf("lc_update c%d w=top h=%d root=%d ts=%d nv=%d ps=x1 pd=x1 rev=%d trusted=%d vals=%s tvals=%s",
+							ci, ht, root, honestTs(ht), tr.Nv, ra.rev, tr.H, valsLine([]hdrVal{{signer, 10, true}, {-2, 1, false}}), valsLine([]hdrVal{{signer, 1, true}}))
+						subs, name = []string{fmt.Sprintf("lc_setcanon c%d", ci), hd}, "designation-then-header-naming-unregistered-proposer"
+					}
+				}
+			} else {
+				subs, name = []string{fmt.Sprintf("lc_setcanon c%d", ci), c.misbLine(ci, ls)}, "designation-then-misbehaviour"
+			}
+		}
+	}
 	for _, s := range subs {
 		if s == "" || strings.HasPrefix(s, "begin") {
 			return ""
 		}
+	}
+	if len(subs) == 0 {
+		return ""
 	}
 	c.r.Hit("tx/" + name)
 	return c09TxJoin(subs)
